@@ -5,6 +5,11 @@ package main
 // the solver's witnesses.
 
 import (
+	"go/ast"
+	"go/build"
+	"go/parser"
+	"go/token"
+	"sort"
 	"bufio"
 	"bytes"
 	"encoding/json"
@@ -69,6 +74,19 @@ func (n *NativeRunner) binary(pkg string, race bool) (string, error) {
 	ov, err := overlayMap(n.repo, true)
 	if err != nil {
 		return "", err
+	}
+	// one generated file per package under test: registers the address of every package-level
+	// variable (read from the package's CURRENT source) for the native state fingerprint
+	for _, gp := range []string{"url", "canonicalizer"} {
+		src, gerr := globalsFile(n.repo, gp, ov)
+		if gerr != nil {
+			return "", gerr
+		}
+		gpath := filepath.Join(n.tmp, "zz_verif_globals_"+gp+".go")
+		if err := os.WriteFile(gpath, []byte(src), 0o644); err != nil {
+			return "", err
+		}
+		ov[filepath.Join(n.repo, gp, "zz_verif_globals_gen.go")] = gpath
 	}
 	ovJSON, _ := json.Marshal(map[string]interface{}{"Replace": ov})
 	ovPath := filepath.Join(n.tmp, "overlay.json")
@@ -240,4 +258,55 @@ func cmdReplay(args []string) int {
 		return 1
 	}
 	return 2
+}
+
+
+// globalsFile lists the package-level variables of /repo/<pkg> (non-test files that build under the
+// verif tag, harness overlay files excluded) and returns the source of a file registering them.
+func globalsFile(repo, pkg string, ov map[string]string) (string, error) {
+	dir := filepath.Join(repo, pkg)
+	ents, err := os.ReadDir(dir)
+	if err != nil {
+		return "", err
+	}
+	ctx := build.Default
+	ctx.BuildTags = append(ctx.BuildTags, "verif")
+	var names []string
+	pkgName := pkg
+	fset := token.NewFileSet()
+	for _, e := range ents {
+		nm := e.Name()
+		if e.IsDir() || !strings.HasSuffix(nm, ".go") || strings.HasSuffix(nm, "_test.go") || strings.HasPrefix(nm, "zz_verif") {
+			continue
+		}
+		if ok, _ := ctx.MatchFile(dir, nm); !ok {
+			continue
+		}
+		f, perr := parser.ParseFile(fset, filepath.Join(dir, nm), nil, 0)
+		if perr != nil {
+			return "", perr
+		}
+		pkgName = f.Name.Name
+		for _, d := range f.Decls {
+			gd, ok := d.(*ast.GenDecl)
+			if !ok || gd.Tok != token.VAR {
+				continue
+			}
+			for _, sp := range gd.Specs {
+				for _, id := range sp.(*ast.ValueSpec).Names {
+					if id.Name != "_" {
+						names = append(names, id.Name)
+					}
+				}
+			}
+		}
+	}
+	sort.Strings(names)
+	var b strings.Builder
+	b.WriteString("//go:build verif\n\npackage " + pkgName + "\n\nimport \"github.com/nlnwa/whatwg-url/internal/vnd\"\n\nfunc init() {\n\tvnd.RegisterGlobals(\"" + pkg + "\", []vnd.Global{\n")
+	for _, nm := range names {
+		fmt.Fprintf(&b, "\t\t{Name: %q, Ptr: &%s},\n", nm, nm)
+	}
+	b.WriteString("\t})\n}\n")
+	return b.String(), nil
 }
